@@ -477,7 +477,7 @@ func maxInt(a, b int) int {
 // every second element, Copy independence. Gen maps an index to an element, in Less order.
 func CheckSetsLong[S any, E comparable](c *vrep.Ctx, api *SetAPI[S, E], gen func(i int) E) {
 	maxN := c.ParamInt("maxn", c.Pick(280, 600))
-	c.R.Rule = fmt.Sprintf("large %ss: for EVERY n in 1..%d: A = {0..n-1} (inserted ascending one by one / descending one by one / in one call), B = {n/2..n/2+n-1}, C = even numbers below 2n, empty, nil; Union, Intersect, Difference, Unique, Disjoint, Equal on every ordered pair, Len/Empty/Contains(every candidate)/Sorted/Elements on every set, operands unchanged by every operation, Delete of every second element, Copy independent of its source; oracle: map[int]bool model; non-trivial = comparisons made", api.Name, maxN)
+	c.R.Rule = fmt.Sprintf("large %ss: for EVERY n in 1..%d: A = {0..n-1} (inserted ascending one by one / descending one by one / in one call), B = {n/2..n/2+n-1}, C = even numbers below 2n, empty, nil; Union, Intersect, Difference, Unique, Disjoint, Equal on every ordered pair, Len/Empty/Contains(every candidate)/Sorted/Elements on every set, operands unchanged by every operation, Delete of every second element, Copy independent of its source, Delete of all but the last element in one call followed by n insert/delete rounds and a two-element Delete on the same object; oracle: map[int]bool model; non-trivial = comparisons made", api.Name, maxN)
 	c.Bound("max_elements", maxN)
 	type named struct {
 		name  string
@@ -636,6 +636,30 @@ func CheckSetsLong[S any, E comparable](c *vrep.Ctx, api *SetAPI[S, E], gen func
 			if check("Copy(A) after Delete of every second element", cp, md) {
 				check("A after its copy was modified", a.set, a.model)
 			}
+			// a long life on ONE object: all but the last element deleted in one call; then n rounds
+			// of insert-one / delete-one; then three inserted and two of them deleted in one call
+			// (bookkeeping that depends on how many deletions an object has seen)
+			lp := api.Copy(a.set)
+			var all []E
+			for i := 0; i+1 < n; i++ {
+				all = append(all, gen(i))
+			}
+			api.Delete(lp, all...)
+			if !check("Copy(A) after Delete of all but the last element in one call", lp, map[int]bool{n - 1: true}) {
+				continue
+			}
+			for i := 0; i < n; i++ {
+				api.Insert(lp, gen(0))
+				api.Delete(lp, gen(0))
+			}
+			api.Insert(lp, gen(1), gen(2), gen(3))
+			api.Delete(lp, gen(1), gen(2))
+			lm := map[int]bool{n - 1: true}
+			delete(lm, 0)
+			lm[3] = true
+			delete(lm, 1)
+			delete(lm, 2)
+			check("the same set after n insert/delete rounds, Insert(1,2,3), Delete(1,2)", lp, lm)
 		}
 	}
 }
